@@ -22,7 +22,7 @@ def render(tokens):
 
 def parser_accepts(es5, tokens):
     try:
-        es5.Parser().parse(render(tokens))
+        es5.parse(render(tokens))          # the public entry point, called many times in a row in this process
         return True
     except Exception as e:
         if type(e).__name__ in ('ECMASyntaxError', 'ECMARegexSyntaxError'):
@@ -99,6 +99,14 @@ def bounded(run, tier, g, es5):
             work.append(('short string', list(t)))
     es5.Parser()
     chunks = [work[i:i + 500] for i in range(0, len(work), 500)]
+    # the same texts in an order where each follows a text ending in an operand (acceptance must not depend on history)
+    rx = [('REGEX', '/x/'), ('PERIOD', '.'), ('ID', 'test'), ('LPAREN', '('), ('ID', 'b'), ('RPAREN', ')'), ('SEMI', ';')]
+    enders = [[('ID', 'a')], [('ID', 'f'), ('LPAREN', '('), ('RPAREN', ')')], [('ID', 'i'), ('PLUSPLUS', '++')],
+              [('ID', 'x'), ('EQ', '='), ('LBRACKET', '['), ('NUMBER', '1'), ('RBRACKET', ']')], [('ID', 'f'), ('LPAREN', '(')]]
+    hist = []
+    for e in enders:
+        hist += [('after another parse', e), ('after another parse', rx), ('after another parse', [('ID', 'a'), ('RPAREN', ')')])]
+    chunks.append(hist)
     n = 0
     fails = []
     ctx = multiprocessing.get_context('fork')
